@@ -210,6 +210,33 @@ def check(ctx):
 
     sites, n_auto = evaluate_sites(ctx, F, reach, parent, table)
     ctx.floor("R-REACH", "panic-capable sites found", len(sites), 500)
+    # 1b. rows whose reason is "guarded by is_i64()/is_u64() on the same number" are re-checked mechanically: every
+    # unwrap/expect of Number::as_i64 / as_u64 / as_f64 in reachable code sits on the true edge of the matching is_* test
+    ctx.clause("R-GUARD every unwrap of Number::as_i64/as_u64/as_f64 is dominated by the matching is_i64/is_u64/is_f64 test of the same number")
+    n_num = 0
+    for fid in sorted(reach):
+        fn = F.fns[fid]
+        if census.is_generated_fn(fn):
+            continue
+        pn = None
+        for c in fn.calls:
+            if not c.path.endswith(("Option::unwrap", "Option::expect")):
+                continue
+            pn = pn or Prov(fn)
+            src = lib.strip(pn.operand(c.args[0]))
+            if not (src[0] == "call" and src[1].endswith(("Number::as_i64", "Number::as_u64", "Number::as_f64"))):
+                continue
+            n_num += 1
+            want = "Number::is_" + src[1].rsplit("as_", 1)[1]
+            num = show(src[2][0])
+            ok = False
+            for br, rel in lib.guards_of(fn, c.bb, pn):
+                if rel and rel[0] == "bool" and rel[2] is True and br.expr[0] == "call" and br.expr[1].endswith(want) and show(br.expr[2][0]) == num:
+                    ok = True
+            ctx.require(ok, "R-GUARD", "number-unwrap:%s|%s" % (fn.path, src[1].split("::")[-1]), "%s().unwrap() only after %s() on the same number" % (src[1].split("::")[-1], want.split("::")[-1]),
+                        "%s unwraps %s of a number without the dominating %s() test: a fractional or out-of-range JSON number supplied by a service or by data panics the interpreter"
+                        % (fn.path, src[1].split("::")[-1], want.split("::")[-1]), sample={"fn": fn.path, "site": c.loc()})
+    ctx.floor("R-GUARD", "guarded Number::as_* unwraps", n_num, 4)
     # 2. gates
     fa = F.fn("air_interpreter_data::rkyv::from_aligned_slice")
     fp = Prov(fa)
